@@ -90,6 +90,9 @@ def programs():
     out["for-named-scope-in-body"] = pre + [("for", "i", "0", "b2", [("scope", "row", [R("cell:"), R(".db i"), R("rend:")]), R(".dl row.cell, row.rend")]), R("after:"), R(".dl after")] + post
     out["for-named-scope-in-macro-in-body"] = pre + [("macrodef", "mkrow", ["x"], [("scope", "row", [R("cell:"), R(".db x")]), R(".dl row.cell")]),
                                                       ("for", "i", "0", "3", [("call", "mkrow", [("expr", "i")]), ("if", "i & 1", [("scope", "odd", [R("o:"), R(".db v")]), R(".dl odd.o")], None)])] + post
+    # plain loop bodies whose inferred-width operands / data cross a width boundary between iterations
+    out["for-inferred-width"] = pre + [("for", "i", "0", "3", [R("lda #i * 0x80"), R("lda i * 0x8000"), R(".db i"), R("ldx #i * 0xff + 1")]), R("after:"), R(".dl after")] + post
+    out["for-inferred-width-symbolic"] = pre + [R("w := c & 0x1ff"), ("for", "i", "0", "b2", [R("lda #w + i * 0x100"), R("cmp w + i")]), R("after:"), R(".dl after")] + post
     out["for-empty-then-code"] = pre + [("for", "i", "3", "b2", [R(".db i")]), R(".db 0x55")] + post
     return out
 
